@@ -33,7 +33,7 @@ SpecSane(r) ==
 
 Judge ==
     LET c == Cases[i]
-        r == Run(c.prog) IN
+        r == IF "mods" \in DOMAIN c.prog THEN RunProject(c.prog) ELSE Run(c.prog) IN
     /\ SpecSane(r)
     /\ IF OutOfModel(r) THEN PrintT("SKIP " \o ToJson([id |-> c.id, why |-> r.status]))
        ELSE \A k \in 1..Len(c.obs) :
